@@ -85,7 +85,65 @@ def enumerate_cases(tier):
         for u in REP_UNITS:
             for n in range(-4, 5):
                 out.append({"k": "unit", "p": p, "u": u, "n": n, "mag": {"t": ["int", "float", "dec"][(len(p) + n) % 3], "v": [7, 2.5, "1.25"][(len(p) + n) % 3]}})
+    # last: the identities once more around a long run of unrelated work (thousands of other
+    # prefixes, a hundred and fifty thousand other units created in between)
+    out.append({"k": "churn", "prefixes": 3000, "units": 150000})
     return out
+
+
+def _run_churn(case, out):
+    """(p*u)**n is p**n * u**n, Kilo*Deca is Kilo*Deca ...: one side is evaluated and kept, then a
+    long stream of other prefixes and units is created, then the other side is evaluated.  The
+    interned objects a program holds stay THE objects for their values however much else
+    happens in the process."""
+    c = convgen.ctx()
+    m, snap = c.m, c.snap
+    try:
+        n_p, n_u = int(case["prefixes"]), int(case["units"])
+        if not (0 <= n_p <= 20000 and 0 <= n_u <= 400000):
+            raise ValueError
+    except Exception:
+        out.invalid = True
+        return
+    P = snap.prefixes
+    meter, second, gram = c.units["meter"], c.units["second"], c.units["gram"]
+    btu, hour, foot = c.units.get("British thermal unit"), c.units.get("hour"), c.units.get("foot")
+    exprs = [
+        ("kilo*deca", lambda: P["kilo"] * P["deca"]),
+        ("mega/hecto", lambda: P["mega"] / P["hecto"]),
+        ("kibi*mebi**2", lambda: P["kibi"] * P["mebi"] ** 2),
+        ("(kilo*meter)**3", lambda: (P["kilo"] * meter) ** 3),
+        ("kilo**3*meter**3", lambda: P["kilo"] ** 3 * meter**3),
+        ("(milli*gram)**2/(micro*second)", lambda: (P["milli"] * gram) ** 2 / (P["micro"] * second)),
+        ("(kilo*deca)*meter/second**2", lambda: (P["kilo"] * P["deca"]) * meter / second**2),
+    ]
+    if btu is not None and hour is not None and foot is not None:
+        exprs.append(("kilo*(BTU/h/ft**2)", lambda: P["kilo"] * (btu / hour / foot**2)))
+        exprs.append(("(kilo*BTU)/h/ft**2", lambda: (P["kilo"] * btu) / hour / foot**2))
+    held = [(text, fn()) for text, fn in exprs]
+    for i in range(n_p):
+        m.Prefix(10, 1000 + i)
+        if i % 3 == 0:
+            P["kibi"] * m.Prefix(10, 40000 + i)   # a float-exponent (mixed-base) prefix
+    for i in range(n_u):
+        meter ** (50 + i) * second ** (-(i % 7) - 1)
+    bad = 0
+    for (text, old), (_t, fn) in zip(held, exprs):
+        new = fn()
+        if new is not old:
+            bad += 1
+            out.fail("C11:churn:identity", f"{text} evaluated before and after {n_p} other prefixes and {n_u} other units were created gives two objects")
+        if isinstance(old, m.Unit):
+            try:
+                eq = (3 * old == 3 * new) and (m.Quantity(3000, old.quantify().unit) == 3000 * old.quantify().unit)
+            except Exception as e:  # noqa
+                out.fail(f"C11:churn:raises:{type(e).__name__}@{core.innermost_frame(e)}", f"comparing 3 {text} before/after the churn raised {type(e).__name__}: {e}")
+                continue
+            if not eq:
+                out.fail("C11:churn:equal", f"3 x ({text}) held from before the churn != 3 x the same expression evaluated afterwards")
+    out.classes.append("churn:checked")
+    out.nontrivial = f"churn|{n_p}|{n_u}"
+    out.sample = {"held_expressions": len(held), "other_prefixes_created": n_p + n_p // 3, "other_units_created": n_u}
 
 
 def _pv(p) -> Fraction:
@@ -122,6 +180,9 @@ def run_case(case) -> core.Outcome:
     c = convgen.ctx()
     m = c.m
     snap = c.snap
+    if isinstance(case, dict) and case.get("k") == "churn":
+        _run_churn(case, out)
+        return out
     try:
         kind = case["k"]
         p = snap.prefixes[case["p"]]
